@@ -454,6 +454,12 @@ public:
    */
   void createNode(Nref objectOriginNode, Nref newNodeObject, Eref newEdgeObject = 00)
   {
+    // what link() would refuse is checked before the node is created
+    if (!hasNode(objectOriginNode))
+      throw Exception("AssociationGraphImplObserver::createNode : origin node is not in the graph observer: " + nodeToString(objectOriginNode));
+    if (newEdgeObject != 00 && hasEdge(newEdgeObject))
+      throw Exception("AssociationGraphImplObserver::createNode : the given edge is already associated to a relation in the subjectGraph: " + edgeToString(newEdgeObject));
+
     createNode(newNodeObject);
     link(objectOriginNode, newNodeObject, newEdgeObject);
   }
